@@ -226,7 +226,7 @@ def bytes_case(draw):
     elif mode == 1:
         frag = [b"local ", b"x", b" = ", b"1", b";", b"{", b"}", b"[", b"]", b"(", b")", b"a:", b"self", b"super", b"$", b".a", b"+", b"std.", b"length",
                 b"'s'", b"if ", b" then ", b" else ", b"function", b"(x)", b"error ", b"import ", b"\xc3\xa9", b"\xff", b"|||\n x\n|||", b",", b"for x in ",
-                b"::", b"+:", b"null", b"true", b"%", b"==", b"in", b"tailstrict", b"assert ", b"//c\n", b"/*", b"*/", b"1e999", b"0x", b"\"", b"@'", b"\\"]
+                b"::", b"+:", b"null", b"true", b"%", b"==", b"in", b"tailstrict", b"assert ", b"//c\n", b"/*", b"*/", b"1e999", b"0x", b"\"", b"@'", b"\\", b"\xef\xbb\xbf", b"\xcc\x81", b"\xe2\x80\x8b", b"\xe2\x80\x8d", b"\xdc\xb0", b"\xe2\x80\xae"]
         data = b"".join(draw(st.lists(st.sampled_from(frag), max_size=25)))
     else:
         c = corpus()
